@@ -13,6 +13,8 @@ mod process;
 pub mod service;
 mod util;
 mod verify_mgr;
+#[cfg(ckb_verif)]
+pub mod verif;
 
 pub use ckb_jsonrpc_types::BlockTemplate;
 pub use component::entry::TxEntry;
